@@ -26,3 +26,8 @@ PROPS = {
                         "layer hash crc64 modelled as an uninterpreted function of the bytes handed to it"],
     },
 }
+
+# Properties not (yet) claimed, each with the reason.  Kept current by hand.
+NOT_APPLICABLE = {
+    "C%02d" % i: "check not built yet in this session (breadth-first build order, DESIGN §9); no claim is made" for i in range(1, 21)
+}
